@@ -232,4 +232,59 @@ mod verif_search {
         }
         println!("REPLAY-STATS c01_api inputs={} all-ok", n);
     }
+
+    /// C15 fallback (bounded, statistical in the weakest possible sense): over 64 draws from each documented source of randomness every byte
+    /// position takes at least two values.  A fixed, reused or partially refreshed value fails this; a correct generator fails it with
+    /// probability below 2^-490 per byte position.  (Distinctness of whole values is not asserted: a 32-bit seed may legitimately repeat.)
+    #[test]
+    fn verif_search_c15_draws() {
+        let mut n = 0u64;
+        fn varies(name: &str, draws: &[Vec<u8>]) -> bool {
+            let len = draws[0].len();
+            for pos in 0..len { if draws.iter().all(|d| d[pos] == draws[0][pos]) { println!("REPLAY-FAIL c15_draws byte {} of {} stayed {:#04x} over {} draws", pos, name, draws[0][pos], draws.len()); return false; } }
+            true
+        }
+        macro_rules! source { ($name:expr, $e:expr) => { { let d: Vec<Vec<u8>> = (0..64).map(|_| { let v: Vec<u8> = $e; v }).collect(); n += 64; if !varies($name, &d) { return; } } } }
+        source!("Salt::randomized", Salt::randomized().as_le_bytes().to_vec());
+        source!("PrivateKey::randomized", PrivateKey::randomized().as_le_bytes().to_vec());
+        source!("ReconnectData::randomized", ReconnectData::randomized().as_le_bytes().to_vec());
+        source!("Salt::default", Salt::default().as_le_bytes().to_vec());
+        source!("PrivateKey::default", PrivateKey::default().as_le_bytes().to_vec());
+        source!("ReconnectData::default", ReconnectData::default().as_le_bytes().to_vec());
+        source!("ReconnectData::randomize_data", { let mut r = ReconnectData::from_le_bytes([0x5a; 16]); r.randomize_data(); r.as_le_bytes().to_vec() });
+        source!("pin::get_pin_grid_seed", crate::pin::get_pin_grid_seed().to_le_bytes().to_vec());
+        source!("pin::get_pin_salt", crate::pin::get_pin_salt().to_vec());
+        source!("integrity::get_salt_value", crate::integrity::get_salt_value().to_vec());
+        source!("matrix_card::get_matrix_card_seed", crate::matrix_card::get_matrix_card_seed().to_le_bytes().to_vec());
+        source!("vanilla ProofSeed::new", crate::vanilla_header::ProofSeed::new().seed().to_le_bytes().to_vec());
+        source!("vanilla ProofSeed::default", crate::vanilla_header::ProofSeed::default().seed().to_le_bytes().to_vec());
+        source!("tbc ProofSeed::new", crate::tbc_header::ProofSeed::new().seed().to_le_bytes().to_vec());
+        source!("tbc ProofSeed::default", crate::tbc_header::ProofSeed::default().seed().to_le_bytes().to_vec());
+        source!("wrath ProofSeed::new", crate::wrath_header::ProofSeed::new().seed().to_le_bytes().to_vec());
+        source!("wrath ProofSeed::default", crate::wrath_header::ProofSeed::default().seed().to_le_bytes().to_vec());
+        // matrix card data: every cell digit is in 0..=9 and every position varies
+        { let d: Vec<Vec<u8>> = (0..64).map(|_| crate::matrix_card::MatrixCard::new(2, 3, 4).data().to_vec()).collect(); n += 64;
+          if d.iter().any(|c| c.len() != 24 || c.iter().any(|x| *x > 9)) { println!("REPLAY-FAIL c15_draws MatrixCard::new(2, 3, 4) does not hold 24 digits in 0..=9"); return; }
+          if !varies("MatrixCard::new data", &d) { return; } }
+        // registration salt, server ephemeral key (seen through B), reconnect challenge, client ephemeral key (seen through A), client reconnect data
+        let (u, p) = (|| NormalizedString::new("ALICE").unwrap(), || NormalizedString::new("PASSWORD123").unwrap());
+        source!("SrpVerifier::from_username_and_password salt", SrpVerifier::from_username_and_password(u(), p()).salt().to_vec());
+        let ver = SrpVerifier::from_username_and_password(u(), p());
+        let record = (*ver.password_verifier(), *ver.salt());
+        source!("SrpVerifier::into_proof server public key", SrpVerifier::from_database_values(u(), record.0, record.1).into_proof().server_public_key().to_vec());
+        let session = || {
+            let proof = SrpVerifier::from_database_values(u(), record.0, record.1).into_proof();
+            let client = SrpClientChallenge::new(u(), p(), 7, crate::LARGE_SAFE_PRIME_LITTLE_ENDIAN, PublicKey::from_le_bytes(*proof.server_public_key()).unwrap(), record.1);
+            let a = *client.client_public_key();
+            let (server, sp) = proof.into_server(PublicKey::from_le_bytes(a).unwrap(), *client.client_proof()).ok().unwrap();
+            (server, client.verify_server_proof(sp).ok().unwrap(), a)
+        };
+        source!("SrpClientChallenge::new client public key", session().2.to_vec());
+        source!("SrpProof::into_server reconnect challenge", session().0.reconnect_challenge_data().to_vec());
+        { let (mut server, client, _) = session();
+          source!("reconnect challenge after a rejected attempt", { let _ = server.verify_reconnection_attempt([0u8; 16], [0u8; 20]); server.reconnect_challenge_data().to_vec() });
+          source!("reconnect challenge after an accepted attempt", { let r = client.calculate_reconnect_values(*server.reconnect_challenge_data()); let _ = server.verify_reconnection_attempt(r.challenge_data, r.proof); server.reconnect_challenge_data().to_vec() });
+          source!("SrpClient::calculate_reconnect_values client data", client.calculate_reconnect_values([7u8; 16]).challenge_data.to_vec()); }
+        println!("REPLAY-STATS c15_draws inputs={} all-ok", n);
+    }
 }
